@@ -79,7 +79,22 @@ CHECKS["C14"] = dict(
     ref="DESIGN.md §5/C14",
 )
 
-PENDING = {k: "claimed in DESIGN.md; check not built yet at this commit, so not claimed here" for k in ['C06','C17']}
+CHECKS["C06"] = dict(
+    level="exploration",
+    text="Started from every fixture and from seeded library-generated projects: load, apply 1-4 catalogue edits to the LOADED object (project fields, common module fields, any controller, any option, MIDI bindings, type-specific payload incl. Sampler envelopes/samples/maps/effect and embedded MetaModule projects, links, pattern fields, cells), save, restart, load; 2-4 such cycles per history so that edits land on objects that came from an edited save and the same slot element is overwritten again in a later cycle. Differential oracle: paths unchanged live must be unchanged across the reload, paths changed live must show the new value.",
+    note="Sampled. The differential oracle deliberately ignores round-trip imperfections unrelated to the edit (those are C01/C05). Observable state is the allow-list snapshot.",
+    technique="deterministic simulation: seeded edit histories on loaded objects across repeated save/restart/load, differential snapshot oracle",
+    ref="DESIGN.md §5/C06",
+)
+CHECKS["C17"] = dict(
+    level="exploration",
+    text="2-4 actors each obtain an object independently (any of the 43 module types, project, pattern, synth; clone of another actor's object; load of another actor's saved bytes or of a shared fixture); a seeded scheduler interleaves mutations through every catalogue slot (incl. in-place element writes into curves, waveforms, envelopes, mappings, note maps, labels, embedded projects), saves, single steps of suspended chunks() writers, drops and fresh constructions. After every step the snapshot digest and saved-bytes digest of every other actor's object must be unchanged; fresh constructions must equal the pristine reference taken at world start (every history runs in a pristine forked process, so class-level contamination cannot hide); a suspended writer must produce the bytes of an uninterrupted save. A sweep pairs every module type with itself (new / clone / load) through 90 slot mutations.",
+    note="Sampled interleavings. Objects of different actors are never linked to each other; one object graph (project + modules, MetaModule + embedded project) belongs to one actor. The global strictness flag is shared by design (C18).",
+    technique="deterministic simulation: seeded interleaving of several actors' operations and suspended writers, non-interference oracle, pristine forked process per history",
+    ref="DESIGN.md §5/C17",
+)
+
+PENDING = {}
 
 
 def main():
